@@ -9,6 +9,7 @@ import (
 	"math/rand"
 	"os"
 	"runtime"
+	"strings"
 	"sync/atomic"
 	"syscall"
 	"time"
@@ -115,6 +116,19 @@ func robustInputs(r *rand.Rand, n int, deep int) [][]byte {
 				b = append(b, bytes.Repeat([]byte(unit), l/len(unit)+1)[:l]...)
 				in = append(in, b)
 			}
+		}
+	}
+	// one long token at the very end of the input (the padded copies made for the last string / number / atom): every
+	// length around the 448 / 512-byte padding limits, as value, as key, terminated and not, with 0..70 bytes after it
+	for L := 380; L <= 600; L++ {
+		body := bytes.Repeat([]byte("s"), L)
+		tails := []string{"\"]", "\"}", "\" ]", "\"" + strings.Repeat(" ", L%71) + "]", "\",1]", "", "\\"}
+		tl := tails[L%len(tails)]
+		in = append(in, []byte("[\""+string(body)+tl))
+		in = append(in, []byte("{\"k\":\""+string(body)+"\"}"))
+		in = append(in, []byte("{\""+string(body)+"\":1}"))
+		if L%3 == 0 {
+			in = append(in, []byte("["+strings.Repeat("7", L)+"]"), []byte("[1,"+strings.Repeat("7", L)), []byte("[tru"+strings.Repeat("e", L)+"]"))
 		}
 	}
 	// adversarial nesting depth, balanced and not
